@@ -325,7 +325,8 @@ def more_python_lints(repo, rep):
                         rep.fail("R-C20-18", fi2.file, sub.lineno, fi2.qualname, unparse(sub),
                                  f"'{nm}' holds the differences of an axis: for a spectrum with a single bin on that axis it is empty and this subscript raises "
                                  "IndexError (valid one-direction / one-frequency spectra crash)", anchor=f"diff-subscript:{fi2.short}:{nm}")
-    rep.floor("R-C20-18", "subscripted difference vectors", n18, 1)
+    if not n18:
+        rep.ok("R-C20-18", "wavespectra (statistics, utils, partition)", "no subscripted difference vector", "nothing to guard")
 
 
 def python_lints(repo, rep):
